@@ -226,7 +226,7 @@ func errorOnlyResult(e ast.Expr) bool {
 
 func genStatic() (string, string) {
 	w := loadWorld()
-	var leaks, exits, untyped, globals, pkgVars []siteRow
+	var leaks, exits, untyped, globals, pkgVars, carried []siteRow
 	mapRanges := 0
 
 	var paths []string
@@ -328,6 +328,81 @@ func genStatic() (string, string) {
 							}
 						}
 						mapRanges++
+					}
+					// loop-carried maps: a map declared in the function outside this loop that the body both reads and writes
+					// under a key that does not mention the loop's key variable — what one iteration stores is seen by the
+					// iterations that follow, so the result may depend on the iteration order (a cache, a "seen" set …)
+					if maybe == "" {
+						keyName := ""
+						if id, ok := rs.Key.(*ast.Ident); ok && id.Name != "_" {
+							keyName = id.Name
+						}
+						reads, writes := map[string]bool{}, map[string]bool{}
+						noteIdx := func(ix *ast.IndexExpr, write bool) {
+							id, ok := ix.X.(*ast.Ident)
+							if !ok || !declaredOutside(id, rs) {
+								return
+							}
+							obj, _ := p.info.Uses[id].(*types.Var)
+							if obj == nil || obj.Parent() == p.pkg.Scope() || obj.Pos() < fd.Pos() || obj.Pos() > fd.End() {
+								return // package-level tables and parameters' own maps are covered elsewhere
+							}
+							if t, ok := p.info.Types[ix.X]; !ok || t.Type == nil {
+								return
+							} else if _, isMap := t.Type.Underlying().(*types.Map); !isMap {
+								return
+							}
+							if src(ix.X) == src(rs.X) {
+								return // the ranged map itself (in-place update): rangeUpdate
+							}
+							mentions := false
+							ast.Inspect(ix.Index, func(k ast.Node) bool {
+								if kid, ok := k.(*ast.Ident); ok && keyName != "" && kid.Name == keyName {
+									mentions = true
+								}
+								return true
+							})
+							if mentions {
+								return
+							}
+							if write {
+								writes[id.Name] = true
+							} else {
+								reads[id.Name] = true
+							}
+						}
+						ast.Inspect(rs.Body, func(m ast.Node) bool {
+							switch v := m.(type) {
+							case *ast.AssignStmt:
+								for _, l := range v.Lhs {
+									if ix, ok := l.(*ast.IndexExpr); ok && v.Tok != token.DEFINE {
+										noteIdx(ix, true)
+									}
+								}
+								for _, r := range v.Rhs {
+									ast.Inspect(r, func(k ast.Node) bool {
+										if ix, ok := k.(*ast.IndexExpr); ok {
+											noteIdx(ix, false)
+										}
+										return true
+									})
+								}
+								return false
+							case *ast.IndexExpr:
+								noteIdx(v, false)
+							}
+							return true
+						})
+						var ms []string
+						for m := range writes {
+							if reads[m] {
+								ms = append(ms, m)
+							}
+						}
+						sort.Strings(ms)
+						for _, m := range ms {
+							carried = append(carried, siteRow{file, fn, "carried-map", m})
+						}
 					}
 					// targets built inside the body
 					targets := map[string]string{} // name → kind
@@ -474,6 +549,7 @@ func genStatic() (string, string) {
 	emit("orderLeakSites", "range-over-map statements that build a sequence / string from the iteration and do not sort it afterwards in the same function", leaks)
 	emit("earlyExitSites", "range-over-map statements left by `break` or by a `return` of something else than an error or a literal", exits)
 	emit("globalWrites", "package-level variables written outside `init`", globals)
+	emit("loopCarriedMaps", "maps declared in a function that a range-over-map body both reads and writes under a key that does not mention the loop's key variable (state carried from one iteration to the next)", carried)
 	emit("packageVars", "every package-level variable of the library (state that can outlive a load), with the kind of its type", pkgVars)
 	emit("untypedRangeSites", "range statements whose operand could not be typed by the lenient checker (must stay empty or reviewed)", untyped)
 	fmt.Fprintf(&b, "def mapRangeCount : Nat := %d\n\n", mapRanges)
